@@ -152,6 +152,9 @@ func Oracle(kind string) (func(b []byte) []int, map[string]int, error) {
 		}
 		return func(b []byte) []int { return re.FindSubmatchIndex(b) }, names, nil
 	}
+	if re, ok := DissectOracles[kind]; ok { // a dissect pattern with a regular expression of the same meaning
+		return Oracle("re:" + re)
+	}
 	return nil, nil, fmt.Errorf("no oracle for matcher %q", kind)
 }
 
@@ -180,6 +183,14 @@ func factoryFor(kind string, seed uint64) (*recFactory, error) {
 		}}, nil
 	}
 	return nil, fmt.Errorf("unknown matcher %q", kind)
+}
+
+// DissectOracles: dissect patterns used by the pipeline cases and a regular expression with the same
+// leftmost / first-occurrence meaning and the same group names (Go's regexp is the oracle).
+var DissectOracles = map[string]string{
+	"dissect:%{a} %{b}":      `^(?P<a>[^ ]*) (?P<b>.*)$`,
+	"dissect:k=%{v};":        `k=(?P<v>[^;]*);`,
+	"dissect:%{a}:%{b}:%{c}": `^(?P<a>[^:]*):(?P<b>[^:]*):(?P<c>.*)$`,
 }
 
 // ---------- scripted reader ----------
